@@ -662,7 +662,12 @@ CallBuiltin(nm, args0, site, cx) ==
                      ELSE HofReduce(a[2], arr1, 2, arr1[1], st)
     [] nm = "sort" -> IF n \notin {1, 2} THEN BadArgs(st)
                       ELSE IF n = 2 /\ ~IsUndef(a[2]) THEN
-                           (IF ~IsFn(a[2]) THEN BadArgs(st) ELSE CmpSort(a[2], arr1, 1, <<>>, st))
+                           (IF ~IsFn(a[2]) THEN BadArgs(st)
+                            ELSE IF FnArity(a[2]) # 2 THEN Top("comparator that does not take two arguments", st)
+                            ELSE CmpSort(a[2], arr1, 1, <<>>, st))
+                      \* fewer than two members need no ordering: whether a lone member of another type is an error is open
+                      ELSE IF Len(arr1) <= 1 /\ ~(\A i \in 1..Len(arr1) : IsNum(arr1[i]) \/ IsStr(arr1[i]))
+                           THEN Top("sorting fewer than two members of another type", st)
                       ELSE IF (\A i \in 1..Len(arr1) : IsNum(arr1[i])) \/ (\A j \in 1..Len(arr1) : IsStr(arr1[j]))
                            THEN LET keys == [i \in 1..Len(arr1) |-> <<arr1[i]>>]
                                     idx == SortIdxUpTo(Len(arr1), <<[dir |-> "", e |-> [k |-> "None"]]>>, keys)
